@@ -22,6 +22,8 @@ def base_files(rnd):
     chunks = [b"", blk * 3, blk * 2 + blk[:1000], corpus.rand(rnd, 40000)]
     buf, stored = ref.build_file(chunks, comp_type=0, hash_type=1, chunk_hash_type=3)
     out.append(("v-repeat", buf))
+    # stored chunk sizes exactly on / one off the 32 KiB block size; the stored data a whole number of blocks long
+    out.append(("v-bufedge", ref.build_file([b""] + corpus.bufedge_chunks(rnd, 0), comp_type=0, hash_type=1, chunk_hash_type=3)[0]))
     # a first (dictionary) entry that has stored bytes but no data: an empty zstd frame.  It is a chunk like any other
     # for the scan: its stored bytes must hash to its checksum
     ef = ref.zstd_compress(b"", 3, None)
@@ -89,7 +91,10 @@ def disk_states(rnd, name, buf, tier):
 ORDERS = [("validate_checksums",), ("find_valid",), ("validate_data",), ("validate_checksums", "validate_data"), ("validate_data", "find_valid"),
           ("find_valid", "validate_checksums", "validate_data"), ("validate_data", "validate_data", "validate_checksums"), ("find_valid", "find_valid"),
           # a read to the end first, then the validations on the same context: the verdicts must still be exact
-          ("R", "validate_data"), ("R", "validate_checksums"), ("R", "find_valid", "validate_data"), ("R", "validate_data", "validate_checksums")]
+          ("R", "validate_data"), ("R", "validate_checksums"), ("R", "find_valid", "validate_data"), ("R", "validate_data", "validate_checksums"),
+          # a read that stops inside the data first, then validations, then the rest of the reads on the same context: whatever
+          # is delivered must still be the content, in order and once (an error is allowed)
+          ("P", "validate_checksums"), ("P", "find_valid"), ("P", "validate_data"), ("P", "find_valid", "validate_data")]
 
 
 def sha(path):
@@ -104,7 +109,7 @@ def run(tier):
     cases = []
     for (fname, buf) in base_files(rnd):
         for (sname, b) in disk_states(rnd, fname, buf, tier):
-            orders = ORDERS if tier == "thorough" else rnd.sample(ORDERS[:8], 2) + rnd.sample(ORDERS[8:], 1)
+            orders = ORDERS if tier == "thorough" else rnd.sample(ORDERS[:8], 2) + rnd.sample(ORDERS[8:12], 1) + rnd.sample(ORDERS[12:], 1)
             for order in orders:
                 cases.append((fname + "/" + sname, b, order))
     scripts = []; meta = []
@@ -122,10 +127,14 @@ def run(tier):
         if not detached:
             lines += ["read 0 %d" % n for n in sizes] + ["close 0"]
         lines += ["free 0", "echo second", "ctx 0", "open 0 %s r" % path, "sink 0 %s" % sinkB, "init_read 0 0"]
-        rfirst = order[0] == "R"
+        rfirst = order[0] == "R"; pfirst = order[0] == "P"
         if rfirst and not detached:
             lines += ["read 0 %d" % n for n in sizes]
-        lines += ["%s 0" % o for o in order if o != "R"]
+        if pfirst and not detached:
+            psz = [max(1, min(sizes[0], total // 3))] if sizes else []
+            sizes = psz + sizes
+            lines += ["read 0 %d" % n for n in sizes[:1]]; sizes = sizes[1:]
+        lines += ["%s 0" % o for o in order if o not in ("R", "P")]
         if not detached and not rfirst:
             lines += ["read 0 %d" % n for n in sizes] + ["close 0"]
         lines += ["end"]
@@ -150,7 +159,10 @@ def run(tier):
         trace.append({"op": "setbaseline"}); owner.append(cid)
         # second execution: validations, then the same reads
         prev_err = 0
+        tB = [x for x in readtrace.enrich(B, sinkB, rf, ff) if x["op"] != "open"]      # reads/closes in call order
         for e in B:
+            if e["op"] in ("read", "close", "Crash", "Hang") and tB:
+                trace.append(tB.pop(0)); owner.append(cid); prev_err = e.get("err", prev_err); continue
             es = prev_err
             prev_err = e.get("err", prev_err)
             if e["op"] == "init_read":
@@ -165,10 +177,9 @@ def run(tier):
                         trace.append({"op": "scan", "call": e["op"], "ret": e["ret"], "vec": e.get("valid", []), "es": es}); owner.append(cid)
                     else:
                         trace.append({"op": "valdata", "ret": e["ret"], "es": es}); owner.append(cid)
-        tB = [x for x in readtrace.enrich(B, sinkB, rf, ff) if x["op"] != "open"]
         for x in tB:
             trace.append(x); owner.append(cid)
-        if not (rf.h.ok and rf.h.detached) and any(x["op"] == "close" for x in tA) and order[0] != "R":
+        if not (rf.h.ok and rf.h.detached) and any(x["op"] == "close" for x in tA) and order[0] not in ("R", "P"):
             trace.append({"op": "samebaseline"}); owner.append(cid)
         trace.append({"op": "unmodified", "same": sha(path) == digest_before}); owner.append(cid)
         if any(e["op"] in ("Crash", "Hang") for e in ce) and not any(x["op"] in ("Crash", "Hang") for x in trace[-40:]):
